@@ -164,6 +164,20 @@ def _build_pool(tier, seed):
                     ([("switchport trunk allowed vlan add " + ",".join(map(str, trunk[3:])), {})] if trunk[3:] else []))
             return t
         jobs.append({"kind": "vlan", "model": model, "old": side(), "new": side()})
+    # keyword-list settings of the shipped huawei rulebook (a line holds a SET of keywords, the vendor logic combines the lines of both
+    # sides into one): the same shape as the VLAN lists, over words instead of numbers
+    for j in range(10 if tier == "quick" else 30):
+        rnd = random.Random("kwset-%d-%d" % (seed, j))
+
+        def kw_side():
+            t = {"sysname r%d" % rnd.randint(1, 3): {}}
+            x = rnd.random()
+            if x < 0.25:
+                t["snmp-agent sys-info version all"] = {}
+            elif x < 0.9:
+                t["snmp-agent sys-info version " + " ".join(rnd.sample(["v1", "v2c", "v3"], rnd.randint(1, 2)))] = {}
+            return t
+        jobs.append({"kind": "vlan", "model": "Huawei CE6870", "old": kw_side(), "new": kw_side()})
     for m in ORDER_HW:
         hw = HardwareView(m, None)
         rb = get_rulebook(hw)
@@ -372,6 +386,35 @@ def run_job(job, snapshots=False):
     return res, problems, vendor
 
 
+def _inline_run(job):
+    import sys
+    sys.path.insert(0, VERIF)
+    res, problems, vendor = run_job(job, snapshots=True)
+    return json.loads(json.dumps(res)), problems
+
+
+def _check_inline(case):
+    """regression form of a hash-seed finding: the job itself is in the file (the pool index depends on VERIF_SEED)"""
+    ctx = mp.get_context("spawn")
+    saved = os.environ.get("PYTHONHASHSEED")
+    outs = {}
+    try:
+        for hs in (0, case["hash_seed"]):
+            os.environ["PYTHONHASHSEED"] = str(hs)
+            with ctx.Pool(1, maxtasksperchild=1) as pool:
+                outs[hs] = pool.map(_inline_run, [case["inline_job"]])[0]
+    finally:
+        if saved is None:
+            os.environ.pop("PYTHONHASHSEED", None)
+        else:
+            os.environ["PYTHONHASHSEED"] = saved
+    a, b = outs[0][0], outs[case["hash_seed"]][0]
+    if a != b and a[0] != "timeout" and b[0] != "timeout":
+        raise Violation("hash-seed-dependent", "the job alone in a new process started with PYTHONHASHSEED=%d gives a different result than "
+                        "with PYTHONHASHSEED=0 (%s)" % (case["hash_seed"], _first_diff(b, a)), {"hash_seed": case["hash_seed"], "results": outs})
+    return ["other-hash-seed-run"]
+
+
 def _cold_run(args):
     """a short sequence of jobs in an interpreter that has served nothing yet (spawned, one sequence per process): what a rulebook or ACL
     text compiles to must not depend on which vendor's texts the process compiled first"""
@@ -440,9 +483,38 @@ def extra_phase(tier, seed):
     for s, out in zip(seqs, outs):
         _judge_cold(tier, seed, s, out)
         nt.append(case_hash({"cold": s}))
-    return {"evaluations": len(seqs), "nontrivial": nt, "labels": {"cold-start-sequence": len(seqs)},
+    # fresh interpreters started with ANOTHER string-hash seed (production runs with a random one): "processed first in a fresh process"
+    # names one result, so it must not depend on the iteration order of a set of strings
+    njobs = len(_pool(tier, seed))
+    hseeds = [1] if tier == "quick" else [1, 2, 3, 4, 5]
+    saved = os.environ.get("PYTHONHASHSEED")
+    hs_runs = 0
+    try:
+        for hs in hseeds:
+            os.environ["PYTHONHASHSEED"] = str(hs)      # spawned children are new interpreters: they start with this seed
+            with ctx.Pool(min(16, os.cpu_count() or 1), maxtasksperchild=1) as pool:
+                outs = pool.map(_cold_run, [(tier, seed, [i]) for i in range(njobs)], chunksize=1)
+            for i, out in enumerate(outs):
+                try:
+                    _judge_cold(tier, seed, [i], out)
+                except Violation as v:
+                    if v.kind == "history-dependent":
+                        v.kind = "hash-seed-dependent"
+                        v.what = ("job %d alone in a new process started with PYTHONHASHSEED=%d gives a different result than alone in a new "
+                                  "process started with PYTHONHASHSEED=0: " % (i, hs)) + v.what
+                        if isinstance(v.detail, dict):
+                            v.detail["hash_seed"] = hs
+                            v.detail["case"] = {"tier": tier, "seq": [i], "cold": True, "hash_seed": hs}
+                    raise
+                hs_runs += 1
+    finally:
+        if saved is None:
+            os.environ.pop("PYTHONHASHSEED", None)
+        else:
+            os.environ["PYTHONHASHSEED"] = saved
+    return {"evaluations": len(seqs) + hs_runs, "nontrivial": nt, "labels": {"cold-start-sequence": len(seqs), "other-hash-seed-run": hs_runs},
             "samples": [{"case": {"tier": tier, "seq": seqs[0], "cold": True}, "labels": ["cold-start-sequence"]}],
-            "coverage": {"cold_start_sequences": len(seqs)}}
+            "coverage": {"cold_start_sequences": len(seqs), "fresh_runs_under_other_hash_seeds": hs_runs, "hash_seeds": [0] + hseeds}}
 
 
 def _fresh_one(args):
@@ -491,6 +563,8 @@ def strategy(tier):
 
 
 def check(case):
+    if case.get("inline_job"):
+        return _check_inline(case)
     tier = case["tier"]
     seed = _tier_seed()[1]
     if not os.path.exists(_cache_path(tier, seed)):
@@ -499,10 +573,19 @@ def check(case):
     jobs = _pool(tier, seed)
     if case.get("cold"):
         ctx = mp.get_context("spawn")
-        with ctx.Pool(1, maxtasksperchild=1) as pool:
-            out = pool.map(_cold_run, [(tier, seed, list(case["seq"]))])[0]
+        saved = os.environ.get("PYTHONHASHSEED")
+        try:
+            if case.get("hash_seed") is not None:
+                os.environ["PYTHONHASHSEED"] = str(case["hash_seed"])     # the new interpreter starts with this string-hash seed
+            with ctx.Pool(1, maxtasksperchild=1) as pool:
+                out = pool.map(_cold_run, [(tier, seed, list(case["seq"]))])[0]
+        finally:
+            if saved is None:
+                os.environ.pop("PYTHONHASHSEED", None)
+            else:
+                os.environ["PYTHONHASHSEED"] = saved
         _judge_cold(tier, seed, list(case["seq"]), out)
-        return ["cold-start-sequence"]
+        return ["cold-start-sequence"] + (["other-hash-seed-run"] if case.get("hash_seed") is not None else [])
     labels = []
     seen = {}
     vendors = set()
